@@ -144,6 +144,17 @@ def scenarios(ctx):
                 sc["iv"], sc["to"] = 0, 5 * TPS
                 sc["tag"] = f"{''.join(word)}|{end}+ping_timeout"
                 scs.append(sc)
+    # segmentation below the frame level: the first bytes of a frame arrive early in a segment of their own, the rest arrives
+    # glued to the NEXT frame(s) — every frame is still dispatched when its last byte has arrived
+    for first, nxt in ((["t", "6869"], [["b", "0001"]]), (["p", "7069"], [["t", "6f6b"]]), (["b", "aa" * 130], [["t", "61"], ["p", ""]]),
+                       (["t", "e38182"], [["q", ""], ["B", "00010203"]])):
+        ln = len(bytes.fromhex(first[1])) + 2
+        for cut in sorted({1, 2, 3, ln - 1}):
+            for ssl in (False, True):
+                evs = [[300, 0, "t", "2d"], [500, 0, first[0], first[1], cut, 40]] + [[0, 1, k, h] for k, h in nxt] + [[900, 0, "b", "ff"]]
+                for end in ("silence", "eof"):
+                    scs.append({"cbs": appsim.ALL, "ssl": ssl, "runs": [[["E", evs + ENDS[end]]]], "horizon": 60 * TPS,
+                                "tag": f"presplit{cut}:{first[0]}{''.join(k for k, _ in nxt)}|{end}"})
     # random longer histories
     n = 3000 if ctx.thorough() else 150
     for _ in range(n):
